@@ -1,12 +1,27 @@
 SPEC = {
     "id": "C07",
-    "n": {"quick": 200, "thorough": 5000},
+    "n": {"quick": 500, "thorough": 8000},
     "components": {"1": "shouldInvalidate verdict per registered live query at each processed event",
-                   "2": "whether the event was decodable (update.err)", "9": "trace cannot be replayed (unknown table / event dropped)"},
-    "corr_name": "Sql.Live (parse_rows_event, poll_loop_update, should_invalidate over Sql.Codec parse_binlog_row / tester) vs livesql/binlog.go, livesql/live.go",
-    "coq_modules": ["Sql.Codec", "Sql.Live"],
-    "trusted_base": [],
-    "assumptions": [],
-    "manifest": {"text": "", "note": "", "technique": ""},
+                   "2": "whether the event was decodable (update.err)",
+                   "9": "trace cannot be replayed (unknown table / event the model says is dropped)"},
+    "corr_name": "Sql.Live (parse_rows_event, poll_loop_update, should_invalidate, tracker add/remove over Sql.Codec parse_binlog_row / tester) vs livesql/binlog.go (parseBinlogRowsEvent, RunPollLoop), livesql/live.go (dbTracker, shouldInvalidate)",
+    "coq_modules": ["Sql.Codec", "Sql.CodecProofs", "Sql.Live", "Sql.LiveProofs"],
+    "trusted_base": [
+        "Coq 8.16.1 kernel and vm_compute (no native_compute); Print Assumptions: closed under the global context",
+        "hand-written models coq/theories/Sql/Live.v (livesql/live.go dbResource.shouldInvalidate, dbTracker, LiveDB.query's register-then-read order; livesql/binlog.go parseBinlogRowsEvent, RunPollLoop's handling of an undecodable event) and Sql/Codec.v (row codec), tied to the code by the correspondence checks only",
+        "the transition system abstracts reactive.Rerunner/Cache to: a live query registers, reads, and may re-run once its run is complete; an invalidated resource leads to a re-run (measured by the harness at quiescence, proved for the reactive package under C04/C08, not here)",
+        "MySQL and the replication protocol are replaced by harness/pkg/fakesql (SQL execution, three-valued WHERE, commit hook) and harness/pkg/livesim (how a committed row image comes back from the go-mysql row decoder); SQL semantics in the model: IS NULL for NULL filter values, = with three-valued logic, bytewise string comparison",
+        "Go harness harness/cmd/c07, the add-only observation points in livesql/live.go (tracker add / remove / process, under the tracker's mutex) and the verif-tagged constructor livesql/verif_binlog.go",
+    ],
+    "assumptions": [
+        "binlog events are delivered in commit order; a decodable event decodes to the write's row images (theorem faithful_event_decodes_to_the_write, from the C13 round trip)",
+        "filter values have the column's Go base type (pointer or not); a mistyped value (string for an integer column) is compared by MySQL after coercion but never matches in the tester: outside the theorem",
+        "quiescence is judged on the model's state (all events delivered, every query's latest registration not invalidated); fairness of the Go scheduler is not modelled",
+    ],
+    "manifest": {
+        "text": "Coq theorems (Props/C07.v): the row tester agrees with SQL WHERE for all column kinds / NULLs / pointer / tagged columns; a write that changes a query's result is matched on its before or after image; for every interleaving of Register / Read / Rerun / Commit / Deliver / DeliverUndecodable, at quiescence each live query holds the SELECT on the final database; an undecodable event invalidates every live query on its table (refuted for the code before the repair). On every run random write histories go through sqlgen and an in-memory MySQL stand-in, the real RunPollLoop is fed from an in-process event stream, live queries run in reactive rerunners; the oracle compares held rows with a direct SELECT at quiescence, and the model must predict every invalidation verdict recorded at the tracker.",
+        "note": "Trusted: Coq kernel + vm_compute; hand-written models tied to the code only by the correspondence check; fakesql / livesim stand-ins for MySQL and the go-mysql decoder; the rerunner is abstracted (its own properties are C04/C08). Scheduler fairness and real replication are not modelled.",
+        "technique": "Coq proof over a labelled transition system + trace conformance at the tracker's observation points (vm_compute) + property oracle at quiescence on the implementation",
+    },
     "harness_timeout": {"quick": 400, "thorough": 3000},
 }
